@@ -513,7 +513,9 @@ func TestVerifC05Fresh(t *testing.T) {
 	res := &vSeqResult{EndStates: map[string]int{}, Depth: depth}
 	sigs := map[string]*vViol{}
 	base := t.TempDir()
-	seqs := vSeqs([]string{"create", "config", "snapshot", "kill", "restart"}, depth)
+	// snap+restart: a snapshot directly followed by a graceful restart, as one step (so that "snapshot, restart,
+	// write, snapshot, restart" fits into the depth bound)
+	seqs := vSeqs([]string{"create", "config", "snapshot", "snap+restart", "kill", "restart"}, depth)
 	if rp := os.Getenv("VERIF_REPLAY"); rp != "" {
 		b, _ := os.ReadFile(rp)
 		var v vViol
@@ -578,7 +580,12 @@ func TestVerifC05Fresh(t *testing.T) {
 				if r := must(c05Cmd{Op: "snapshot"}); r.Code == 200 {
 					res.Snapshots++
 				}
-			case "kill", "restart":
+			case "kill", "restart", "snap+restart":
+				if op == "snap+restart" {
+					if r := must(c05Cmd{Op: "snapshot"}); r.Code == 200 {
+						res.Snapshots++
+					}
+				}
 				if op == "kill" {
 					child.kill()
 				} else {
